@@ -99,10 +99,7 @@ pub(crate) fn before_lock<T>(mutex: &std::sync::Mutex<T>) {
     unsafe fn probe<T>(mutex: *const ()) -> bool {
         // SAFETY: caller passes the pointer handed to `before_lock`.
         let mutex = unsafe { &*mutex.cast::<std::sync::Mutex<T>>() };
-        !matches!(
-            mutex.try_lock(),
-            Err(std::sync::TryLockError::WouldBlock)
-        )
+        !matches!(mutex.try_lock(), Err(std::sync::TryLockError::WouldBlock))
     }
 
     if let Some(scheduler) = scheduler() {
